@@ -209,6 +209,29 @@ RpcLeaves(sh) ==
      [] sh.method = "get_stored_tx" ->
          <<J("/params/token", "tokenhex", TRUE, TRUE, "params"), J("/params/id", "optu32", TRUE, TRUE, "params"),
            J("/params/slate_id", "optuuid", TRUE, TRUE, "params")>>
+     [] sh.method = "init_send_tx" ->      \* libwallet/src/api_impl/types.rs InitTxArgs (estimate_only: nothing is stored)
+         <<J("/params/token", "tokenhex", TRUE, TRUE, "params"), J("/params/args", "obj", TRUE, FALSE, "params"),
+           J("/params/args/src_acct_name", "optstr", FALSE, TRUE, "paramfields"), J("/params/args/amount", "numstr", TRUE, FALSE, "paramfields"),
+           J("/params/args/minimum_confirmations", "numstr", TRUE, FALSE, "paramfields"), J("/params/args/max_outputs", "u32", TRUE, FALSE, "paramfields"),
+           J("/params/args/num_change_outputs", "u32", TRUE, FALSE, "paramfields"),
+           J("/params/args/selection_strategy_is_use_all", "bool", TRUE, FALSE, "paramfields"),
+           J("/params/args/target_slate_version", "optu16", FALSE, TRUE, "paramfields"),
+           J("/params/args/ttl_blocks", "optnumstr", FALSE, TRUE, "paramfields"),
+           J("/params/args/payment_proof_recipient_address", "bech32", FALSE, TRUE, "paramfields"),
+           J("/params/args/estimate_only", "bool", FALSE, TRUE, "paramfields"), J("/params/args/late_lock", "bool", FALSE, TRUE, "paramfields"),
+           J("/params/args/send_args", "optobj", FALSE, TRUE, "paramfields")>>
+     [] sh.method = "query_txs" ->         \* RetrieveTxQueryArgs
+         <<J("/params/token", "tokenhex", TRUE, TRUE, "params"), J("/params/refresh_from_node", "bool", TRUE, FALSE, "params"),
+           J("/params/query", "allopt", TRUE, FALSE, "params"),
+           J("/params/query/min_id", "optu32", FALSE, TRUE, "paramfields"), J("/params/query/limit", "optu32", FALSE, TRUE, "paramfields"),
+           J("/params/query/exclude_cancelled", "bool", FALSE, TRUE, "paramfields"),
+           J("/params/query/min_amount", "optnumstr", FALSE, TRUE, "paramfields"),
+           J("/params/query/min_creation_timestamp", "datetime", FALSE, TRUE, "paramfields"),
+           J("/params/query/sort_field", "enumstr", FALSE, TRUE, "paramfields"), J("/params/query/sort_order", "enumstr", FALSE, TRUE, "paramfields")>>
+     [] sh.method = "create_slatepack_message" ->
+         <<J("/params/token", "tokenhex", TRUE, TRUE, "params"), J("/params/slate", "innerjson", TRUE, FALSE, "params"),
+           J("/params/sender_index", "optu32", TRUE, TRUE, "params"), J("/params/recipients", "arr", TRUE, FALSE, "params"),
+           J("/params/recipients/0", "bech32", FALSE, FALSE, "params")>>
      [] OTHER -> <<>>)
 \* the encrypted owner envelope (api/src/types.rs EncryptedRequest)
 EncReqLeaves ==
@@ -248,7 +271,10 @@ Chains ==
     rpco_dec    |-> <<"encreq", "rpco", "armor", "b58", "packbin", "slatebin">>,
     rpco_proof  |-> <<"encreq", "rpco", "proofjson">>,
     rpco_fin    |-> <<"encreq", "rpco", "slatejson">>,
-    rpco_stored |-> <<"encreq", "rpco">> ]
+    rpco_stored |-> <<"encreq", "rpco">>,
+    rpco_init   |-> <<"encreq", "rpco">>,
+    rpco_query  |-> <<"encreq", "rpco">>,
+    rpco_cspm   |-> <<"encreq", "rpco", "slatejson">> ]
 ChainNames == DOMAIN Chains
 
 \* instances: a name per chain and the shape of each of its layers
@@ -277,7 +303,10 @@ Instances ==
     rpco_dec    |-> [o2 |-> Shape("S1p", TRUE, FALSE, 0, "decode_slatepack_message")],
     rpco_proof  |-> [o3 |-> Shape("MIN", FALSE, FALSE, 0, "verify_payment_proof")],
     rpco_fin    |-> [o4 |-> Shape("S2p", FALSE, FALSE, 0, "owner_finalize_tx")],
-    rpco_stored |-> [o5 |-> Shape("MIN", FALSE, FALSE, 0, "get_stored_tx")] ]
+    rpco_stored |-> [o5 |-> Shape("MIN", FALSE, FALSE, 0, "get_stored_tx")],
+    rpco_init   |-> [o6 |-> Shape("MIN", FALSE, FALSE, 0, "init_send_tx")],
+    rpco_query  |-> [o7 |-> Shape("MIN", FALSE, FALSE, 0, "query_txs")],
+    rpco_cspm   |-> [o8 |-> Shape("S1p", FALSE, FALSE, 0, "create_slatepack_message")] ]
 
 LayerLeaves(ly, sh) ==
   CASE ly = "armor"     -> ArmorLeaves
@@ -349,7 +378,7 @@ JsonStrVariants(cls) ==
     [] cls \in {"uuid", "optuuid"} -> {"empty", "short", "nonhex", "nonascii"}
     [] cls = "verstr"  -> {"empty", "nosep", "twosep", "alpha", "big"}
     [] cls = "packver" -> {"empty", "nosep", "twosep", "alpha", "big"}
-    [] cls = "stastr"  -> {"empty", "unknown"}
+    [] cls \in {"stastr", "enumstr", "datetime"} -> {"empty", "unknown"}
     [] cls = "bech32"  -> {"empty", "short", "flip", "nosep", "upper", "nonascii"}
     [] cls = "b64inner" -> {"empty", "short", "badchar", "nonascii"}
     [] cls \in {"method", "anystr"} -> {"empty", "unknown"}
@@ -357,15 +386,15 @@ JsonStrVariants(cls) ==
     [] cls \in {"optstr"} -> {"empty", "nonascii"}
     [] OTHER -> {}
 JsonNumVariants(cls) ==
-  CASE cls \in {"numstr", "u64", "feenum"} -> {"neg", "float", "big", "max", "zero", "asstr", "strbad"}
-    [] cls \in {"u8", "optu32"} -> {"neg", "float", "big", "v256", "zero", "asstr"}
+  CASE cls \in {"numstr", "u64", "feenum", "optnumstr"} -> {"neg", "float", "big", "max", "zero", "asstr", "strbad"}
+    [] cls \in {"u8", "optu32", "u32", "optu16"} -> {"neg", "float", "big", "v256", "zero", "asstr"}
     [] OTHER -> {}
 JsonMuts(lf, last) ==
   {Mu("delkey", ""), Mu("dupkey", ""), Mu("null", ""), Mu("addkey", "")}
   \cup {Mu("type", t) : t \in {"num", "str", "arr", "obj", "bool"}}
   \cup {Mu("str", v) : v \in JsonStrVariants(lf.a)}
   \cup {Mu("num", v) : v \in JsonNumVariants(lf.a)}
-  \cup (IF lf.a \in {"arr", "obj", "params", "u32arr"} THEN {Mu("deep", "200"), Mu("deep", "100000"), Mu("arr", "empty"), Mu("arr", "long")} ELSE {})
+  \cup (IF lf.a \in {"arr", "obj", "allopt", "params", "u32arr"} THEN {Mu("deep", "200"), Mu("deep", "100000"), Mu("arr", "empty"), Mu("arr", "long")} ELSE {})
   \cup (IF last THEN {Mu("doc", "trunc"), Mu("doc", "junk"), Mu("doc", "ws"), Mu("doc", "nonutf8"), Mu("doc", "empty"),
                       Mu("doc", "bom"), Mu("doc", "array"), Mu("doc", "bigstr")} ELSE {})
 
@@ -394,7 +423,7 @@ QuickPlan ==
     <<"spaddr", "ad", 1>>, <<"onion", "on", 1>>, <<"proofjson", "pp", 1>>, <<"grintx", "tx", 1>>,
     <<"rpcf_recv", "r1", 1>>, <<"rpcf_recv", "r1", 2>>, <<"rpcf_cb", "cb", 1>>, <<"rpcf_ver", "cv", 1>>,
     <<"rpco_sfrom", "o1", 1>>, <<"rpco_sfrom", "o1", 2>>, <<"rpco_sfrom", "o1", 3>>, <<"rpco_proof", "o3", 3>>,
-    <<"rpco_stored", "o5", 2>> }
+    <<"rpco_stored", "o5", 2>>, <<"rpco_init", "o6", 2>>, <<"rpco_query", "o7", 2>>, <<"rpco_cspm", "o8", 2>> }
 FullPlan == {<<ch, i, k>> : ch \in ChainNames, i \in UNION {DOMAIN Instances[c] : c \in ChainNames}, k \in 1..8}
 Plan == {t \in (IF Thorough THEN FullPlan ELSE QuickPlan) :
            t[1] \in ChainNames /\ t[2] \in DOMAIN Instances[t[1]] /\ t[3] <= Len(Chains[t[1]])}
@@ -567,21 +596,22 @@ JsonStrEff(cls, v) ==
     [] cls \in {"tokenhex", "noncehex"} ->      \* at least 32 / 12 bytes, the first 32 / 12 are used
          (CASE v = "long" -> E("cont") [] v = "nonascii" -> PanicAt("grin_util::from_hex#char-boundary") [] OTHER -> E("err"))
     [] cls = "anystr" -> E("cont")      \* EncryptedRequest.jsonrpc / .method are Strings nobody looks at
-    [] cls \in {"verstr", "packver", "stastr", "uuid", "bech32", "rpcver"} -> IF cls = "bech32" /\ v = "upper" THEN E("cont") ELSE E("err")   \* bech32 is case-insensitive as a whole
+    [] cls \in {"verstr", "packver", "stastr", "uuid", "bech32", "rpcver", "enumstr", "datetime"} -> IF cls = "bech32" /\ v = "upper" THEN E("cont") ELSE E("err")   \* bech32 is case-insensitive as a whole
     [] cls = "optuuid" -> E("err")
     [] cls = "b64inner" -> IF v \in {"empty", "short"} THEN E("innererr") ELSE E("err")   \* decodes, the payload is cut
     [] cls = "method" -> E("err")
     [] cls = "optstr" -> E("cont")
     [] OTHER -> Havoc_Semantics
 JsonNumEff(cls, v) ==
-  CASE cls \in {"numstr", "feenum"} -> (CASE v \in {"max", "zero", "asstr"} -> E("cont") [] OTHER -> E("err"))
+  CASE cls \in {"numstr", "feenum", "optnumstr"} -> (CASE v \in {"max", "zero", "asstr"} -> E("cont") [] OTHER -> E("err"))
     [] cls = "u64" -> (CASE v \in {"max", "zero"} -> E("cont") [] OTHER -> E("err"))
     [] cls = "u8" -> (CASE v = "zero" -> E("cont") [] OTHER -> E("err"))
-    [] cls = "optu32" -> (CASE v \in {"zero", "v256"} -> E("cont") [] OTHER -> E("err"))
+    [] cls \in {"optu32", "u32", "optu16"} -> (CASE v \in {"zero", "v256"} -> E("cont") [] OTHER -> E("err"))
     [] OTHER -> Havoc_Semantics
 JsonTypeEff(cls, t) ==
-  CASE cls \in {"numstr", "feenum"} /\ t \in {"num", "str"} -> E("cont")      \* string_or_u64 / FeeFields: a number or a string of digits
-    [] cls \in {"u8", "u64", "optu32"} /\ t = "num" -> E("cont")
+  CASE cls \in {"numstr", "feenum", "optnumstr"} /\ t \in {"num", "str"} -> E("cont")      \* string_or_u64 / FeeFields: a number or a string of digits
+    [] cls \in {"u8", "u64", "optu32", "u32", "optu16"} /\ t = "num" -> E("cont")
+    [] cls = "bool" /\ t = "bool" -> E("cont")
     [] cls = "rpcid" /\ t \in {"num", "str"} -> E("cont")
     [] cls = "optstr" /\ t = "str" -> E("cont")
     [] OTHER -> E("err")
@@ -595,10 +625,13 @@ JsonEff(ly, lf, mu, carrier) ==
     [] mu.m = "type"   -> JsonTypeEff(lf.a, mu.a)
     [] mu.m = "str"    -> IF ly = "encreq" /\ lf.a = "b64inner" THEN E("err")       \* AES-GCM tag fails
                           ELSE JsonStrEff(lf.a, mu.a)
-    [] mu.m = "num"    -> JsonNumEff(lf.a, mu.a)
+    [] mu.m = "num"    -> IF lf.n = "/params/args/max_outputs" /\ mu.a = "zero"
+                          THEN PanicAt("selection.rs::select_coins#windows-zero")   \* decoded; the operation then calls eligible.windows(0) (C01)
+                          ELSE JsonNumEff(lf.a, mu.a)
     [] mu.m = "deep"   -> E("err")                                                 \* wrong type, or serde_json's recursion limit
     [] mu.m = "arr"    -> IF lf.a = "arr" THEN E("cont")           \* sigs / coms: any number of well-formed elements
                           ELSE IF lf.a = "obj" THEN E("err")      \* an object emptied of its required members, or turned into a list
+                          ELSE IF lf.a = "allopt" THEN (IF mu.a = "empty" THEN E("cont") ELSE E("err"))   \* every member is an Option
                           ELSE Havoc_Semantics
     [] mu.m = "doc"    -> (CASE mu.a = "ws" -> E("cont")
                              [] mu.a = "array" -> IF ly \in {"rpcf", "rpco"} THEN E("cont") ELSE E("err")   \* a JSON-RPC batch of one
